@@ -405,7 +405,7 @@ def run(prop, tier):
     if prop == "C05":
         # residue numbering (spec/Residues.tla; not a clause of C05: differences are divergences in the evidence)
         from . import residues as RS
-        rdiv, rcov = RS.run(g, I.core_instances() + I.extra_instances(), seed=common.seed())
+        rdiv, rcov = RS.run(common.import_repo(), I.core_instances() + I.extra_instances(), seed=common.seed())
         v.coverage["residue_numbering"] = rcov
         if rdiv:
             v.notes.append("residue numbers differ from spec/Residues.tla (not a clause of C05): " + "; ".join(rdiv[:5]))
